@@ -45,6 +45,11 @@ type State struct {
 	notes   []string
 	traceOn bool // trace mode (C10): record lock / map events
 	thread  int  // current thread of trace mode
+	// trace mode: objects allocated before the concurrent phase (id <= phaseBase) are shared;
+	// an object allocated by a thread during the phase becomes shared when a reference to it
+	// is stored into a shared object (published)
+	phaseBase int
+	published map[int]bool
 }
 
 type nondetRec struct {
@@ -57,7 +62,13 @@ type nondetRec struct {
 
 func (st *State) clone() *State {
 	n := &State{heap: make(map[int]*Obj, len(st.heap)), globals: st.globals, nextObj: st.nextObj}
-	n.traceOn, n.thread = st.traceOn, st.thread
+	n.traceOn, n.thread, n.phaseBase = st.traceOn, st.thread, st.phaseBase
+	if st.published != nil {
+		n.published = make(map[int]bool, len(st.published))
+		for k := range st.published {
+			n.published[k] = true
+		}
+	}
 	n.events = append([]Event(nil), st.events...)
 	n.notes = append([]string(nil), st.notes...)
 	if st.ghost != nil {
